@@ -349,6 +349,15 @@ fn directed(emit: &mut Emit) {
             Operation::assign(s("b"), es("a")),
         ])),
     );
+    // one name at two widths: falcon's analyses identify scalars by (name, width), its executor by name
+    emit.case(
+        "directed/alias-width",
+        function_str(&mk(vec![
+            Operation::assign(s("x"), c(5)),
+            Operation::assign(il::scalar("y", 8), il::expr_scalar("x", 8)),
+            Operation::assign(s("x"), c(0)),
+        ])),
+    );
     // an unreachable block
     {
         let mut cfg = il::ControlFlowGraph::new();
